@@ -109,13 +109,11 @@ RisStep ==
   /\ l' = l + 1
 
 \* ================================== Ed25519 ==========================================
-\* C13, binding of the batch coefficients: the coefficients drawn for two batches that differ in ANY input (a key, a
-\* message, R or S of one entry) must differ, they are non-zero 128-bit values, and a repeated call draws the same ones.
-\* The previous batch's coefficients are remembered in the register "__zs".
-\* non-zero 128-bit values, pairwise distinct (independent draws: a collision has probability 2^-128; one shared coefficient
-\* would let errors in different entries cancel)
-ZsOK(zs) == /\ \A i \in 1..Len(zs) : ~BIsZero(zs[i]) /\ BIsZero(SubSeq(zs[i], (LEN \div 2) + 1, LEN))
-            /\ \A i, j \in 1..Len(zs) : i # j => zs[i] # zs[j]
+\* C13.  The coefficients of the batch equation are not part of any property; what the property demands is the verdict.  The
+\* driver therefore also plays the ADAPTIVE adversary: it reads the coefficients z of a batch (a public function of the
+\* batch; exposed by a hook), moves S_0 and S_1 so that sum z_i S_i is unchanged, and submits that batch ("att_sigs").  Its
+\* verdict is judged like any other batch: Ok exactly when every entry verifies on its own - which entries 0 and 1 no
+\* longer do.
 SigOps == {"rng.scalar", "rng.signing_key", "sig.keygen", "sig.from_keypair_bytes", "sig.sk_from_slice", "sig.sign", "sig.sign_expanded", "sig.sign_prehashed",
            "sig.verify", "sig.verify_batch"}
 SigJudge(e) ==
@@ -177,9 +175,9 @@ SigJudge(e) ==
            used == IF Has(e, "lens") /\ lensok THEN SubSeq(ents, 1, e.lens[1]) ELSE ents
        IN IF ~keysok THEN <<~o.key_ok, "bad key">>
           ELSE IF ~lensok THEN <<o.key_ok /\ ~o.ok /\ ~o.again, "length mismatch must be Err">>
-          ELSE IF Has(e, "bind") /\ Has(o, "zs") /\ o.zs # <<>> /\ "__zs" \in DOMAIN regs /\ ~(\A i \in 1..Len(o.zs) : i <= Len(regs["__zs"].zs) => o.zs[i] # regs["__zs"].zs[i])
-               THEN <<FALSE, "batch coefficients are not bound to the input that changed">>
-          ELSE IF Has(o, "zs") /\ o.zs # <<>> /\ ~(ZsOK(o.zs) /\ o.zs = o.zs_again) THEN <<FALSE, "batch coefficients zero / too wide / repeated / not deterministic">>
+          ELSE IF Has(o, "att_sigs") /\ ~(LET att == [i \in 1..Len(used) |-> [A |-> used[i].A, m |-> used[i].m, sig |-> o.att_sigs[i]]]
+                                           IN BatchInDomain(att) => o.att_ok = BatchAllValid(att))
+               THEN <<FALSE, "the adaptive adversary's batch (S_0, S_1 moved along the coefficients) was accepted although its entries are invalid">>
           ELSE IF BatchMustErr(used) THEN <<o.key_ok /\ ~o.ok /\ ~o.again, "must be Err">>
           ELSE IF BatchInDomain(used) THEN
                LET x == BatchAllValid(used) IN <<o.key_ok /\ o.ok = x /\ o.again = x, x>>
@@ -188,8 +186,6 @@ SigJudge(e) ==
 SigStep ==
   /\ l <= Len(Rec) /\ Rec[l].op \in SigOps
   /\ LET e == Rec[l]  j == SigJudge(e) IN
-       /\ Note(j[1], e, j[2])
-       /\ IF e.op = "sig.verify_batch" /\ NoPanic(e) /\ Has(e.obs, "zs") /\ e.obs.zs # <<>>
-          THEN SetReg("__zs", [t |-> "zs", zs |-> e.obs.zs]) ELSE UNCHANGED regs
+       /\ Note(j[1], e, j[2]) /\ UNCHANGED regs
   /\ l' = l + 1
 =============================================================================
